@@ -138,12 +138,47 @@ def factory_ws(accepts):
     return ws, sock
 
 
+_APP_KW = {}
+
+
+def app_socket_kwargs(ping_interval):
+    """the keyword arguments with which WebSocketApp.run_forever(ping_interval=…) builds its WebSocket (recorded from a real
+    run whose connect is refused at once)."""
+    if ping_interval in _APP_KW:
+        return _APP_KW[ping_interval]
+    import websocket
+    import websocket._app as A
+    rec = {}
+
+    class Rec(websocket.WebSocket):
+        def __init__(self, *a, **k):
+            rec.update(k)
+            websocket.WebSocket.__init__(self, *a, **k)
+
+        def connect(self, *a, **k):
+            raise ConnectionRefusedError(111, "refused (recording run)")
+    old = A.WebSocket
+    A.WebSocket = Rec
+    try:
+        app = A.WebSocketApp("ws://x.test/")
+        app.run_forever(ping_interval=ping_interval, ping_timeout=(ping_interval / 2 if ping_interval else None))
+    finally:
+        A.WebSocket = old
+    _APP_KW[ping_interval] = {k: v for k, v in rec.items() if k in ("enable_multithread", "fire_cont_frame", "skip_utf8_validation")}
+    return _APP_KW[ping_interval]
+
+
 def sender_run(payloads, keys, schedule, accepts, factory=False):
     import websocket
     b = Baton()
     # the object's own locks stay — made by the library where and when it makes them; only their implementation is scheduled
     with library_locks(b):
-        if factory:
+        if factory == "app" or factory == "app-ka":
+            # the object as WebSocketApp builds it (without / with keepalive): app.send() from any thread, the loop's replies
+            # and the ping thread write through it
+            ws = websocket.WebSocket(**app_socket_kwargs(0 if factory == "app" else 2))
+            sock = simnet.SimSocket([], accepts=accepts)
+        elif factory:
             ws, sock = factory_ws(accepts)
         else:
             ws = websocket.WebSocket()
@@ -265,7 +300,7 @@ def run_senders(ctx):
     lines, obs, metas = [], [], []
     for ci, (payloads, acc, sched) in enumerate(cases):
         keys = [bytes([0x10 + i, 0x20 + i, 0x30 + i, 0x40 + i]) for i in range(len(payloads))]
-        wire, eff, excs, rets = sender_run(payloads, keys, sched, acc, factory=(ci % 4 == 3))
+        wire, eff, excs, rets = sender_run(payloads, keys, sched, acc, factory=(False, "app", "app-ka", True)[ci % 4])
         frames = [client_frame(p, k) for p, k in zip(payloads, keys)]
         lines.append("m-threads-send " + ".".join(f.hex() for f in frames) + " " + (".".join(map(str, eff)) or "-") + " " + ".".join(map(str, acc)))
         obs.append(common.summarize(wire))
@@ -391,8 +426,10 @@ def run_receivers(ctx):
         msgs, frames = [], []
         for m in range(nmsgs):
             data = bytes([0x41 + m]) * rnd.choice([1, 2, 5, 130])
-            msgs.append(data)
-            frames += rx.message(rnd, 2, data, rnd.randint(1, 3), ctrl_between=rnd.choice([0, 1]))
+            # text and binary messages side by side: what a receiver gets back (str / bytes) is decided by ITS message
+            mop = rnd.choice([1, 2])
+            msgs.append(data.decode("ascii") if mop == 1 else data)
+            frames += rx.message(rnd, mop, data, rnd.randint(1, 3), ctrl_between=rnd.choice([0, 1]))
         stream = b"".join(f.enc() for f in frames)
         chunks = [("chunk", c) for c in rx.partitions(stream, rnd, 1)[-1]]
         share = [1] * nthreads
@@ -428,7 +465,8 @@ def run_receivers(ctx):
             j = seen_calls[t]
             seen_calls[t] += 1
             x = got[t][j] if j < len(got[t]) else "X:missing"
-            expect.append(f"{k}:2:{common.summarize(x)}" if isinstance(x, (bytes, bytearray)) else f"{k}:{x}")
+            expect.append(f"{k}:2:{common.summarize(x)}" if isinstance(x, (bytes, bytearray)) else
+                          f"{k}:{x}" if x.startswith("X:") else f"{k}:1:{common.summarize(x.encode())}")
         cosim.append((mline, ",".join(expect) + f"|0|-|1", {"frames": [f.desc() for f in frames], "acquisitions": acq, "schedule": eff[:120]}))
         switches = sum(1 for a, b_ in zip(eff, eff[1:]) if a != b_)
         ctx.case(key=("rx", it, tuple(eff[:40])), nontrivial=switches > 1,
@@ -439,8 +477,9 @@ def run_receivers(ctx):
         delivered = [x for v in got.values() for x in v]
         inp = {"op": "threads-recv", "frames": [f.desc() for f in frames], "threads": nthreads, "share": share, "schedule": eff[:120]}
         if sorted(map(repr, delivered)) != sorted(map(repr, msgs)):
-            ctx.violate("each-message-intact-to-exactly-one-receiver", "lost-duplicated-or-mixed", inp, [len(m) for m in msgs],
-                        [x if isinstance(x, str) else x.hex()[:20] for x in delivered], size=len(eff) + len(frames))
+            ctx.violate("each-message-intact-to-exactly-one-receiver", "lost-duplicated-mixed-or-wrong-type", inp,
+                        [(type(m).__name__, len(m)) for m in msgs],
+                        [(type(x).__name__, x[:20] if isinstance(x, str) else x.hex()[:20]) for x in delivered], size=len(eff) + len(frames))
             continue
         for v in got.values():
             idx = [msgs.index(x) for x in v]
